@@ -81,13 +81,17 @@ func c20Run(page string, c *c20Sym) c20Result {
 func HarnessC20Unlikely() {
 	mk := c20Markers[vx.Choose("marker", vx.Param("markers", len(c20Markers)))]
 	inner := c20Inner[vx.Choose("inner", vx.Param("inners", len(c20Inner)))]
-	place := vx.Choose("place", vx.Param("places", 5))
+	place := vx.Choose("place", vx.Param("places", 6))
 	if place == 4 && !strings.HasPrefix(mk[0], "role=") {
 		// class/id markers are exempt inside tables by design; only role markers are pruned there
 		vx.Assume(false)
 	}
 	if place == 4 && (strings.Contains(mk[0], "navigation")) {
 		mk = [2]string{`role="dialog"`, `role="zzneutral"`} // landmark roles also change the table's classification
+	}
+	if place == 5 {
+		// one representative of the other dimensions here (the bare texts add symbolic counts of their own)
+		vx.Assume(inner == c20Inner[0])
 	}
 	main1, main2 := `<p>alpha alpha</p>`, `<p>beta beta</p>`
 	build := func(marked string) string {
@@ -103,13 +107,19 @@ func HarnessC20Unlikely() {
 			s += `<div>` + main1 + `<section><div>` + marked + `</div></section>` + main2 + `</div>`
 		case 4:
 			s += `<div>` + main1 + `<table><tr><td>` + marked + `</td></tr></table>` + main2 + `</div>`
+		case 5: // between bare text nodes of one parent
+			s += `<div>` + main1 + `<div>gamma one ` + marked + ` gamma two</div>` + main2 + `</div>`
 		}
 		return s + `</body></html>`
 	}
 	tag := []string{"div", "section", "aside"}[vx.Choose("tag", vx.Param("tags", 3))]
 	// an exempt element (anchor) carrying the same markers, before or after
 	exempt := ""
-	switch vx.Choose("exempt", vx.Param("exempts", 3)) {
+	nex := vx.Param("exempts", 3)
+	if place == 5 {
+		nex = 1
+	}
+	switch vx.Choose("exempt", nex) {
 	case 1:
 		// (followed by a data table: content kept as a whole that sits between or before the marked parts)
 		exempt = `<a href="/x" ` + mk[0] + `>epsilon</a><table><caption>zeta</caption><thead><tr><th>eta</th><th>theta</th></tr></thead><tbody><tr><td>iota</td><td>kappa</td></tr></tbody></table>`
@@ -128,7 +138,9 @@ func HarnessC20Unlikely() {
 		return b + a
 	}
 	P := build(wrap(`<`+tag+` `+mk[0]+`>`+inner+`</`+tag+`>`, exempt))
-	Pdel := build(wrap(``, exempt))
+	// (a comment stands in for the deleted subtree, so that the texts around it
+	// stay the same text nodes and get the same symbolic counts)
+	Pdel := build(wrap(`<!--deleted-->`, exempt))
 	Pneu := build(wrap(`<`+tag+` `+mk[1]+`>`+inner+`</`+tag+`>`, exemptN))
 	c := &c20Sym{memo: map[string]int{}, max: vx.Param("maxwc", 600)}
 	rp := c20Run(P, c)
